@@ -13,9 +13,10 @@ C13 (third sentence), augments — the augment stage of `processAll` on a split 
    instead — same flat view, same augments left over — whenever the split run leaves no
    `duplicate-node` error.
 3. `NoLeftover`, `preDev_noLeftover`, `processAll_noLeftover`: when the loop leaves nothing pending,
-   the leftover pass and the second FixChoice do nothing: the result is the loop's forest with
-   `fixChoice` applied to every tree (no deviation statements).  (A run WITH leftover augments is
-   order dependent: Props/C13Include.lean `include_eq_inline_fails`.)
+   the retry rounds, the reporting sweep and the last FixChoice do nothing: the result is the loop's
+   forest with `fixChoice` applied to every tree (no deviation statements).  (A run WITH augments
+   left for the stage after FixChoice used to be order dependent — finding D67, repaired: that stage
+   is now a fixpoint; Props/C13Include.lean `include_eq_inline_witness`.)
 -/
 namespace Goyang.Lemmas.IncludeAugOrder
 open Goyang.Model Goyang.Spec.Include Goyang.Spec.Augment Goyang.Lemmas.Tree
@@ -181,10 +182,16 @@ def NoLeftover : Prop := ∀ p ∈ (afterLoop reg opts plug).2.pending, p.2 = []
 
 instance : Decidable (NoLeftover reg opts plug) := by unfold NoLeftover; infer_instance
 
+/-- With nothing left over the retry rounds stop after the first (empty) loop. -/
+theorem afterRounds_noLeftover (hn : NoLeftover reg opts plug) :
+    (afterRounds reg opts plug).2 = fixAll (afterLoop reg opts plug).2 := by
+  unfold afterRounds
+  exact IncludeNoAug.leftoverRounds_nil reg _ _ _ _ (IncludeNoAug.fixAll_nil _ hn)
+
 theorem leftoverPass_noLeftover (hn : NoLeftover reg opts plug) :
     leftoverPass reg opts plug = (fixAll (afterLoop reg opts plug).2, 0) := by
   unfold leftoverPass
-  rw [← Array.foldl_toList]
+  rw [afterRounds_noLeftover reg opts plug hn, ← Array.foldl_toList]
   refine foldl_inv (fun acc : PState × Nat => acc = (fixAll (afterLoop reg opts plug).2, 0)) _ _ _ rfl ?_
   rintro acc id _ rfl
   dsimp only
@@ -192,7 +199,7 @@ theorem leftoverPass_noLeftover (hn : NoLeftover reg opts plug) :
   rfl
 
 /-- With nothing left over, the state before the deviations is the loop's result with `fixChoice`
-applied to every tree (the leftover pass and the second FixChoice do nothing). -/
+applied to every tree (the retry rounds, the reporting sweep and the last FixChoice do nothing). -/
 theorem preDev_noLeftover (hn : NoLeftover reg opts plug) : preDev reg opts plug = fixAll (afterLoop reg opts plug).2 := by
   unfold preDev
   rw [leftoverPass_noLeftover reg opts plug hn]
